@@ -114,6 +114,47 @@ def _make_kwonly(reason):
     return KwOnlyExc(reason=reason)
 
 
+class EqAll:
+    """Compares equal to everything (like unittest.mock.ANY)."""
+
+    def __init__(self, n):
+        self.n = n
+
+    def __eq__(self, other):
+        return True
+
+    def __ne__(self, other):
+        return False
+
+    __hash__ = None
+
+    def __repr__(self):
+        return f'EqAll({self.n})'
+
+
+class _Ambiguous:
+    def __bool__(self):
+        raise ValueError('The truth value of an array with more than one element is ambiguous')
+
+
+class ArrayLike:
+    """== is element-wise, as for numpy arrays / pandas objects: its result has no truth value."""
+
+    def __init__(self, n):
+        self.n = n
+
+    def __eq__(self, other):
+        return _Ambiguous()
+
+    def __ne__(self, other):
+        return _Ambiguous()
+
+    __hash__ = None
+
+    def __repr__(self):
+        return f'ArrayLike({self.n})'
+
+
 class ErrorList(Exception):
     """A collection-like exception (the errors gathered by a batch job): len() and truth value follow its entries."""
 
